@@ -16,7 +16,7 @@ def shards(name, binary, n, args, **kw):
 def udp_swarm_steps(tier, extra=None):
     extra = extra or []
     if tier == "quick":
-        return [{"name": "udp_swarm", "bin": "udp_swarm", "args": ["--histories", "20000", "--budget_s", "25"] + extra}]
+        return [{"name": "udp_swarm", "bin": "udp_swarm", "args": ["--histories", "300000", "--budget_s", "25"] + extra}]
     return shards("udp_swarm", "udp_swarm", 16, ["--histories", "100000000", "--budget_s", "110"] + extra)
 
 
@@ -44,7 +44,7 @@ PLANS["C01"] = {
 def swarm_steps(name, binary, tier, extra=None, quick_budget=25):
     extra = extra or []
     if tier == "quick":
-        return [{"name": name, "bin": binary, "args": ["--histories", "20000", "--budget_s", str(quick_budget)] + extra}]
+        return [{"name": name, "bin": binary, "args": ["--histories", "300000", "--budget_s", str(quick_budget)] + extra}]
     return shards(name, binary, 16, ["--histories", "100000000", "--budget_s", "110"] + extra)
 
 
